@@ -407,3 +407,12 @@ mod tests {
         assert!(*trade_vols == vec![0, 0, 30]);
     }
 }
+
+/// Read-only verification hooks (feature `verif`, off by default)
+#[cfg(feature = "verif")]
+impl<const ASSETS: usize, const LEVELS: usize> MarketEnv<ASSETS, LEVELS> {
+    /// Instructions submitted since the last step, in submission order
+    pub fn verif_pending(&self) -> &[Event<MarketOrderId>] {
+        &self.transactions
+    }
+}
